@@ -197,7 +197,7 @@ def job_incompr(dim, tier):
     return out
 
 
-def job_fourier(dim, tier):
+def job_fourier(dim, tier, aniso=False):
     gs = c11.setup()
     import gstools.field.generator as G
 
@@ -206,18 +206,19 @@ def job_fourier(dim, tier):
     X = [[real(f"x{a}_{i}") for i in range(2)] for a in range(dim)]
     v, l = real("var"), real("len")
     per = [real(f"p{d}") for d in range(dim)]
+    an = [real(f"anis{d}") for d in range(dim - 1)] if aniso else []
     wv = {str(s.e): s for r in X for s in r}
-    wv.update({str(s.e): s for s in [v, l] + per})
-    rb = ("fourier", lambda vals: {"dim": dim, "values": vals})
-    tag = f"C01/Fourier/d{dim}"
+    wv.update({str(s.e): s for s in [v, l] + per + an})
+    rb = ("fourier", lambda vals: {"dim": dim, "aniso": aniso, "values": vals})
+    tag = f"C01/Fourier/d{dim}" + ("/aniso" if aniso else "")
     SPEC_F = z3.Function("spectrum_S", z3.RealSort(), z3.RealSort())
 
     def run():
         rngstub.reset()
-        for s in [v, l] + per:
+        for s in [v, l] + per + an:
             sym.assume(s > 0)
         UFModel = _spec_model(gs, SPEC_F)
-        model = UFModel(dim=dim, var=v, len_scale=l)
+        model = UFModel(dim=dim, var=v, len_scale=l, **({"anis": list(an)} if an else {}))
         gen = G.Fourier(model, period=list(per), mode_no=[2] * dim, seed=4)
         pos = rnp.array(X, dtype=object)
         u = gen(pos, add_nugget=False)
@@ -237,6 +238,9 @@ def job_fourier(dim, tier):
         dk = z3.RealVal(1)
         for d in range(dim):
             dk = dk * (two_pi / per[d].e)
+            if an and d > 0:
+                # isometrised coordinates: lengths along main axis d are divided by anis_d, the period becomes period_d / anis_d
+                dk = dk * an[d - 1].e
         for j in range(N):
             knorm = sq(c15_seq([lift(K[d, j]) * lift(K[d, j]) for d in range(dim)]))
             out.append(prove(f"{base}/weight_{j}^2 == var * S(|k_j|) * prod(dk)  (Riemann sum of the inverse Fourier integral)", C + [SPEC_F(knorm) >= 0], lift(sf[j]) * lift(sf[j]) == v.e * SPEC_F(knorm) * dk, T, witness_vars=wv, replay=rb, pairwise=False))
@@ -270,6 +274,8 @@ def jobs(tier, seed):
     for dim in (1, 2, 3):
         js.append(Job(f"randmeth-gaussian-d{dim}", job_randmeth, dim, "Gaussian", nm, tier))
         js.append(Job(f"fourier-d{dim}", job_fourier, dim, tier))
+        if dim > 1:
+            js.append(Job(f"fourier-aniso-d{dim}", job_fourier, dim, tier, True))
     js.append(Job("randmeth-stable-d2", job_randmeth, 2, "Stable", nm, tier))
     for dim in (2, 3):
         js.append(Job(f"incompr-d{dim}", job_incompr, dim, tier))
@@ -340,12 +346,13 @@ def replay_fourier(inputs):
     X = np.array([[_val(v, f"x{a}_{i}", 0.4 + 0.9 * i - 0.3 * a) for i in range(2)] for a in range(dim)])
     var, l = abs(_val(v, "var", 1.7)) or 1.7, abs(_val(v, "len", 1.3)) or 1.3
     per = [abs(_val(v, f"p{d}", 5.0 + d)) or 5.0 for d in range(dim)]
-    model = gs.Gaussian(dim=dim, var=var, len_scale=l)
+    anis = [abs(_val(v, f"anis{d}", 0.4 + 0.3 * d)) or 0.4 for d in range(dim - 1)] if inputs.get("aniso") else []
+    model = gs.Gaussian(dim=dim, var=var, len_scale=l, **({"anis": anis} if anis else {}))
     gen = gs.field.generator.Fourier(model, period=per, mode_no=[6] * dim, seed=4)
     u = gen(X, add_nugget=False)
     K = gen._modes
     ph = K.T @ X
-    w = np.sqrt(model.spectrum(np.linalg.norm(K, axis=0)) * np.prod(2 * np.pi / np.array(per)))
+    w = np.sqrt(model.spectrum(np.linalg.norm(K, axis=0)) * np.prod(2 * np.pi / np.array(per)) * np.prod(anis))
     ref = (w[:, None] * (gen._z_1[:, None] * np.cos(ph) + gen._z_2[:, None] * np.sin(ph))).sum(axis=0)
     bad = []
     if not np.allclose(gen._spectrum_factor, w, rtol=1e-9):
